@@ -75,7 +75,7 @@ pub fn eval_bytes(x: &[u8], how: &str, obs: &mut Obs) -> Result<(), Fail> {
     }
     obs.count("alloc-calls-complete", rep.calls);
     obs.class(if res.is_ok() { "complete:ok" } else { "complete:err" });
-    obs.nontrivial_if(r.overlong.is_some() || matches!(r.reject.as_ref().map(|j| j.kind), Some(RejectKind::TlfOverflow)) || how.starts_with("mutated") || how.starts_with("dump["));
+    obs.nontrivial_if(r.overlong.is_some() || matches!(r.reject.as_ref().map(|j| j.kind), Some(RejectKind::TlfOverflow)) || how.starts_with("mutated") || how.starts_with("dump[") || how.starts_with("tree"));
     Ok(())
 }
 
